@@ -317,6 +317,28 @@ def handleRingC (j : Json) : Json :=
     | _ => []
   Json.mkObj [("ring_c", Json.num (EnumC.ringCOf ⟨atoms, []⟩ x))]
 
+/-- `life`: the Model of a Glycan object's construction and two `get_smiles()` calls, fed with what was observed inside the code -/
+def handleLife (j : Json) : Json :=
+  let b (k : String) := (j.getObjValAs? Bool k).toOption.getD false
+  let optStr (k : String) : Option (List Char) := match j.getObjVal? k with
+    | .ok (Json.str s) => some s.toList
+    | _ => none
+  let validTbl : List (String × Bool) := match j.getObjVal? "valid" with
+    | .ok (Json.obj kvs) => kvs.toList.filterMap (fun (k, v) => match v with | Json.bool x => some (k, x) | _ => none)
+    | _ => []
+  let valid : List Char → Bool := fun s => (validTbl.lookup (String.ofList s)).getD false
+  let enc (r : Option (List Char × Life.Obj)) : Json := match r with
+    | some (s, _) => Json.str (String.ofList s)
+    | none => Json.null
+  match Life.construct valid (b "tree_only") (b "full") (b "tf_ctor") (optStr "merged_ctor") with
+  | none => Json.mkObj [("construct", "raises")]
+  | some o =>
+    let r1 := Life.getSmiles valid o (b "tf_lazy") (optStr "merged_lazy")
+    let r2 := match r1 with
+      | some (_, o') => Life.getSmiles valid o' (b "tf_lazy") (optStr "merged_lazy")
+      | none => none
+    Json.mkObj [("construct", "ok"), ("first", enc r1), ("second", enc r2)]
+
 def handleReact (j : Json) : Json :=
   let str (k : String) := ((j.getObjValAs? String k).toOption.getD "").toList
   let nat (k : String) := (j.getObjValAs? Nat k).toOption.getD 0
@@ -421,6 +443,7 @@ def handle (line : String) : Json :=
     | some "observed" => handleObserved j
     | some "react" => handleReact j
     | some "plan" => handlePlan j
+    | some "life" => handleLife j
     | some "ringc" => handleRingC j
     | some "count" => handleCount j
     | some "ping" => Json.mkObj [("pong", Json.bool true)]
